@@ -42,7 +42,7 @@ META = dict(
          'is not spawned again, a finished-incomplete one is not reset to '
          'waiting, and otherwise the new proxy carries the right submit '
          'number and flows.',
-    note='flow numbers 1..5 / subsets of {1,2,3}; <= 3 (thorough 4) '
+    note='flow numbers 1..5 / subsets of {1,2,3}; <= 3 '
          'commands; <= 2 history rows; the SQL behind the DAO queries is '
          'trusted (modelled by dictionaries); fixture graph "basic".',
     functions=['FlowMgr.get_flow', 'FlowMgr.cli_to_flow_nums',
@@ -50,8 +50,8 @@ META = dict(
                'TaskPool.merge_flows', 'TaskProxy.merge_flows',
                'TaskPool.spawn_task', 'TaskPool._get_task_history',
                'TaskPool._load_db_task_proxy/_load_historical_outputs'],
-    bounds=['commands: new | N (1..5) | restart(pool subset); 3 quick / 4 '
-            'thorough', 'parent flows subset of {1,2}, existing child flows '
+    bounds=['commands: new | N (1..5) | restart(pool subset); 3 per '
+            'history', 'parent flows subset of {1,2}, existing child flows '
             'subset of {1,2,3}, child present or not, parent flow-wait bit',
             'history: 0..2 rows x (submit 1..2, flows subset {1,2,3}, 8 '
             'statuses, flow-wait), outputs row none/incomplete/complete'],
